@@ -55,8 +55,11 @@ func TestMain(m *testing.M) {
 	}
 	prop := "C16"
 	for _, a := range os.Args {
-		if strings.Contains(a, "TestC04Par") {
+		if strings.Contains(a, "TestC04Par") || strings.Contains(a, "TestC04Inflight") {
 			prop = "C04"
+		}
+		if strings.Contains(a, "TestC05Inflight") {
+			prop = "C05"
 		}
 		if strings.Contains(a, "TestC11Conc") {
 			prop = "C11"
@@ -1001,6 +1004,7 @@ func TestReplay(t *testing.T) {
 	kit.Replay(t, map[string]kit.Replayer{
 		"lifecase":   replayLife,
 		"lockscript": replayLockScript,
+		"inflight":   replayInflight,
 		"workload": func(raw json.RawMessage) *kit.Failure {
 			var w Workload
 			if err := json.Unmarshal(raw, &w); err != nil {
